@@ -788,6 +788,9 @@ type vfC08ClassCase struct {
 	Flaky    []string `json:"knownFlaky"`
 	Fails    []bool   `json:"fails"`    // per name: the client's result does not match
 	Sideband []bool   `json:"sideband"` // per name: the reference peer reports feedback after the outcome was recorded
+	// NoOutcome: per name: no result of the client's was ever recorded for it (it timed out for that case) - the peer's
+	// feedback is all there is (only together with Sideband)
+	NoOutcome []bool `json:"noOutcome,omitempty"`
 }
 
 // TestVerifC08Classify: names and pattern sets over a small alphabet; every name gets an outcome (pass or failure) and
@@ -813,6 +816,7 @@ func TestVerifC08Classify(t *testing.T) {
 				c.Names = append(c.Names, name)
 				c.Fails = append(c.Fails, rapid.Bool().Draw(t, "fails"))
 				c.Sideband = append(c.Sideband, rapid.IntRange(0, 2).Draw(t, "sideband") == 0)
+				c.NoOutcome = append(c.NoOutcome, c.Sideband[len(c.Sideband)-1] && rapid.IntRange(0, 2).Draw(t, "noOutcome") == 0)
 			}
 			gen := func(label string) []string {
 				var out []string
@@ -843,6 +847,9 @@ func TestVerifC08Classify(t *testing.T) {
 			}
 			results := newResults(len(c.Names), vfTrieOrEmpty(c.Failing), vfTrieOrEmpty(c.Flaky), nil)
 			for i, n := range c.Names {
+				if i < len(c.NoOutcome) && c.NoOutcome[i] {
+					continue
+				}
 				var err error
 				if c.Fails[i] {
 					err = errors.New("result does not match")
@@ -900,6 +907,12 @@ func TestVerifC08Classify(t *testing.T) {
 				sb = sb || s
 			}
 			var cl []string
+			for _, n := range c.NoOutcome {
+				if n {
+					cl = append(cl, "feedback-without-outcome")
+					break
+				}
+			}
 			if sb {
 				cl = append(cl, "feedback-after-outcome")
 			}
